@@ -101,8 +101,12 @@ def run_unit(unit) -> UnitResult:
                     r.samples.append({"grammar": ctx.spec["name"], "unit": unit["kind"], "rep": ev.rep, "program": R.show(tm)[:200]})
             if errs:
                 e = errs[0]
+                try:
+                    is_default = len(e) > 4 and e[4] == type(e[4])()
+                except Exception:
+                    is_default = False
                 r.add_violation(Violation(
-                    PROP, site, "ill-typed:" + e[0], {"decl": e[3], "rep": ev.rep},
+                    PROP, site, "ill-typed:" + e[0], {"decl": e[3], "rep": ev.rep, "value_is_base_type_default": bool(is_default)},
                     dict(base_w, path=e[1], program=R.show(tm)[:300]), f"{ctx.spec['name']}: at {e[1]}: {e[2]}"))
         r.states += len(seen)
         r.capped += ctx.stats.capped_paths
